@@ -55,6 +55,10 @@ func (b *BufferReadWriter) WriteAt(p []byte, off int64) (n int, err error) {
 	if off < 0 {
 		return 0, fmt.Errorf("negative offset")
 	}
+	if len(p) == 0 {
+		// Like pwrite(2) with a zero count: transfers nothing and never extends the buffer.
+		return 0, nil
+	}
 	return b.buf.WriteAt(p, off)
 }
 
